@@ -47,7 +47,38 @@ UNRECOGNISED_RETS = [
 ]
 
 
+SYSTEMATIC = []
+for _fl in ("global", "thread", "async"):
+    for _pol in ("fifo", "lru", "lfu", "arc", "random", "tlru"):
+        SYSTEMATIC.append(dict(flavour=_fl, policy=_pol, limit=True, maxmem=False, inv_on=True, cache_if=(len(SYSTEMATIC) % 3 == 0)))
+for _fl in ("global", "thread", "async"):
+    for _pol in ("fifo", "lfu", "tlru", "random"):
+        SYSTEMATIC.append(dict(flavour=_fl, policy=_pol, limit=(len(SYSTEMATIC) % 2 == 0), maxmem=True, inv_on=(len(SYSTEMATIC) % 4 == 1), cache_if=True))
+
+
 def gen(seed, n):
+    """the first 48 functions are random (seeded); then the 4 fixed ones (plain, F7 witnesses); then the systematic
+    block: flavour x policy with limit + invalidate_on, and flavour x policy with max_memory + cache_if"""
+    base_n = n - len(SYSTEMATIC)
+    fns = gen_random(seed, base_n)
+    rng = random.Random(seed * 7 + 3)
+    for k, sy in enumerate(SYSTEMATIC):
+        i = base_n + k
+        is_async = sy["flavour"] == "async"
+        thread_scope = sy["flavour"] == "thread"
+        fns.append(dict(i=i, real_result=False, is_async=is_async, policy=sy["policy"],
+                        limit=(1 + k % 2) if sy["limit"] else None,
+                        maxmem=MAXMEM[1 + k % 2] if sy["maxmem"] else None,
+                        ttl=(1 + k % 2) if k % 3 == 0 else None,
+                        fw=FWS[1 + k % 5] if sy["policy"] == "tlru" else None,
+                        scope="thread" if thread_scope else None,
+                        sig=SIGS[1 + k % 4], ret=RETS[(k % 3) if not sy["maxmem"] else 1 + k % 2],
+                        name=None, tags=[TAGS[k % 3]] if k % 2 == 0 else [], events=[], deps=[],
+                        cache_if=sy["cache_if"], inv_on=sy["inv_on"], thread_scope=thread_scope))
+    return fns
+
+
+def gen_random(seed, n):
     rng = random.Random(seed)
     fns = []
     for i in range(n):
